@@ -22,7 +22,11 @@ CLAIM = {
     "text": "Ownership postconditions of the real code on every path of the harnesses: after forward() of solve_torchfcn, "
             "symeig_torchfcn, degen_symeig, _RootFinder, _SolveIVP, _Quadrature and _MCQuad no object reachable from the "
             "context's plain attributes (through attributes, containers, closure cells and bound methods) is an output "
-            "of that forward - outputs needed later are kept only through save_for_backward; backward() (also when "
+            "of that forward - outputs needed later are kept only through save_for_backward; objects the library creates "
+            "during a forward (e.g. the change of variable for infinite quadrature limits) do not reach themselves; helpers "
+            "kept on the context (TensorNonTensorSeparator) retain nothing they are given and return a fresh list per call; "
+            "no exception handler in the library lets the caught exception object (traceback, frames, local tensors) "
+            "escape; backward() (also when "
             "recorded) adds no tensor to the context; the Jacobian-model objects of the root finders store no bound "
             "method or closure referring to themselves; no module-level container of the library grows across calls "
             "with fresh functions. These are the mechanisms by which a call can keep tensors alive without a collectable "
@@ -106,6 +110,36 @@ def reachable_tensors(root, skip_keys=("_saved", "needs_input_grad")):
     return out
 
 
+class new_library_objects(object):
+    """instances of classes defined in the library that were created inside the block and are still alive"""
+
+    def __enter__(self):
+        import gc
+        gc.collect()
+        self.before = set(id(o) for o in gc.get_objects())
+        self.found = []
+        return self
+
+    def __exit__(self, *a):
+        import gc
+        for o in gc.get_objects():
+            if id(o) in self.before:
+                continue
+            mod = getattr(type(o), "__module__", "") or ""
+            if mod.startswith("xitorch.") and not isinstance(o, type) and hasattr(o, "__dict__"):
+                self.found.append(o)
+        return False
+
+
+def _check_created_objects(c, name, found):
+    bad = []
+    for o in found:
+        cyc = cycle_to_self(o)
+        if cyc:
+            bad.append("%s: %s" % (type(o).__name__, cyc))
+    c.check("%s.forward:objects_created_by_the_library_do_not_reach_themselves" % name, not bad, detail="; ".join(bad[:2]) or "%d objects" % len(found))
+
+
 def _check_forward(c, name, fctx, outputs):
     outs = outputs if isinstance(outputs, (tuple, list)) else (outputs,)
     reach = reachable_tensors(fctx)
@@ -172,10 +206,21 @@ def unit_functions():
         h = kit.UserFn("h", shape_like=0, out_shape=(3,), vaxes=(0,))
         pfn3 = get_pure_function(lambda x, p_: h(x, p_))
         fctx = st.FunctionCtx()
-        with st.no_grad():
-            out = qd._Quadrature.forward(fctx, pfn3, st.scalar("xl"), st.scalar("xu"), {"method": Producer(lambda: st.vec("integral", (3,), (0,)))}, {}, 1,
-                                         st.float64, st._cpu, p)
+        with new_library_objects() as created:
+            with st.no_grad():
+                out = qd._Quadrature.forward(fctx, pfn3, st.scalar("xl"), st.scalar("xu"), {"method": Producer(lambda: st.vec("integral", (3,), (0,)))}, {}, 1,
+                                             st.float64, st._cpu, p)
         before = _check_forward(c, "_Quadrature", fctx, out)
+        _check_created_objects(c, "_Quadrature[finite limits]", created.found)
+        # (semi-)infinite limits go through the change of variable: the transform object and the wrapped integrand
+        for lims, lab in (((st.scalar("xl"), float("inf")), "upper limit infinite"), ((-float("inf"), float("inf")), "both limits infinite")):
+            fctx2 = st.FunctionCtx()
+            with new_library_objects() as created2:
+                with st.no_grad():
+                    out2 = qd._Quadrature.forward(fctx2, pfn3, lims[0], lims[1], {"method": Producer(lambda: st.vec("integral", (3,), (0,)))}, {}, 1,
+                                                  st.float64, st._cpu, p)
+            _check_forward(c, "_Quadrature[%s]" % lab, fctx2, out2)
+            _check_created_objects(c, "_Quadrature[%s]" % lab, created2.found)
         # ---- mcquad ----------------------------------------------------------------------------------------------
         mq = importlib.import_module("xitorch.integrate.mcquad")
         ff = kit.UserFn("ff", out_shape=(3,), vaxes=(0,))
@@ -361,6 +406,79 @@ def unit_wrappers():
     return kit.run_unit("wrappers", run)
 
 
+def unit_helpers_retain_nothing():
+    """helpers that live on the autograd context: a call does not make them hold on to its arguments or results"""
+    def run():
+        c = ctx()
+        from xitorch._utils.misc import TensorNonTensorSeparator
+        n = fresh_int("n")
+        c.assume(n.e >= 1)
+        for varonly in (True, False):
+            p0 = st.vec("p0", (n,), (0,), requires_grad=True)
+            p2 = st.vec("p2", (n,), (0,), requires_grad=False)
+            p3 = st.vec("p3", (n,), (0,), requires_grad=True)
+            sep = TensorNonTensorSeparator((p0, 2.5, p2, p3), varonly=varonly)
+            before = set(id(t) for t, _ in reachable_tensors(sep))
+            nt = sep.ntensors()
+            new1 = [st.vec("g%d" % i, (n,), (0,)) for i in range(nt)]
+            new2 = [st.vec("h%d" % i, (n,), (0,)) for i in range(nt)]
+            r1 = sep.reconstruct_params(new1)
+            snap1 = list(r1)
+            r2 = sep.reconstruct_params(new2, [None] * sep.nnontensors())
+            tag = "TensorNonTensorSeparator[varonly=%s]" % varonly
+            c.check(tag + ".reconstruct_params:every_call_returns_its_own_list", r1 is not r2 and all(a is b for a, b in zip(r1, snap1)),
+                    detail="the list returned by the first call was %s" % ("reused" if r1 is r2 else "changed"))
+            after = [(t, pth) for t, pth in reachable_tensors(sep) if id(t) not in before]
+            c.check(tag + ".reconstruct_params:separator_keeps_no_reference_to_what_it_was_given", not after,
+                    detail="reachable afterwards: %s" % [pth for _, pth in after][:3])
+    return kit.run_unit("helpers_retain_nothing", run)
+
+
+def unit_exception_objects():
+    """an exception object carries its traceback, the traceback the frames and the frames their local tensors: a handler
+    that stores the exception (in a variable that outlives the handler, an attribute or a container) creates a cycle
+    frame -> exception -> traceback -> frame that only the cyclic collector frees.  Syntactic rule over the library source."""
+    import ast
+    import os
+
+    def run():
+        c = ctx()
+        root = os.path.join(os.environ.get("PYDV_REPO", "/repo"), "xitorch")
+        bad = []
+        nhandlers = 0
+        for dp, dn, fn in os.walk(root):
+            if "_tests" in dp:
+                continue
+            for f in fn:
+                if not f.endswith(".py"):
+                    continue
+                path = os.path.join(dp, f)
+                try:
+                    tree = ast.parse(open(path, encoding="utf-8").read())
+                except SyntaxError:
+                    continue
+                for node in ast.walk(tree):
+                    if isinstance(node, ast.ExceptHandler) and node.name:
+                        nhandlers += 1
+                        nm = node.name
+                        for sub in ast.walk(node):
+                            val = None
+                            if isinstance(sub, ast.Assign):
+                                val = sub.value
+                            elif isinstance(sub, (ast.AnnAssign, ast.AugAssign)):
+                                val = sub.value
+                            elif isinstance(sub, ast.Call) and isinstance(sub.func, ast.Attribute) and sub.func.attr in ("append", "add", "setdefault", "insert"):
+                                for a_ in sub.args:
+                                    if isinstance(a_, ast.Name) and a_.id == nm:
+                                        bad.append("%s:%d stores the exception in a container" % (os.path.relpath(path, root), sub.lineno))
+                            if val is not None and any(isinstance(x, ast.Name) and x.id == nm for x in ast.walk(val)) and \
+                                    not (isinstance(val, ast.Call) and isinstance(val.func, ast.Name) and val.func.id in ("str", "repr", "type")):
+                                bad.append("%s:%d binds the caught exception to a name that outlives the handler" % (os.path.relpath(path, root), sub.lineno))
+        c.check("library:no_handler_lets_the_caught_exception_object_escape", not bad, detail="; ".join(bad[:3]) or "%d named handlers" % nhandlers)
+        c.check("library:source_was_scanned", os.path.isdir(root))
+    return kit.run_unit("exception_objects", run)
+
+
 def unit_module_state():
     """no module-level container of the library grows when a functional is called repeatedly with fresh functions"""
     import importlib
@@ -429,4 +547,5 @@ def unit_histories_bounded():
 
 def units(tier):
     return [("functions", unit_functions), ("backward_ctx", unit_backward_ctx), ("solver_objects", unit_solver_objects), ("wrappers", unit_wrappers),
+            ("helpers_retain_nothing", unit_helpers_retain_nothing), ("exception_objects", unit_exception_objects),
             ("module_state", unit_module_state), ("histories_bounded", unit_histories_bounded)]
